@@ -79,10 +79,16 @@ deriving DecidableEq, Repr
 /-- host key ↦ routes in the table's own order -/
 abbrev DTable := List (C13.Str × List DRoute)
 
-/-- the label that stands for the target of route `j` under key number `i` -/
-def label (i j : Nat) : Route.Str := (toString i ++ "/" ++ toString j).toList
+/-- the label that stands for the target of route `j` under key number `i` (unary, so that distinct positions
+have visibly distinct labels) -/
+def label (i j : Nat) : Route.Str := List.replicate i 'k' ++ '/' :: List.replicate j 'r'
 
-def enum {α : Type} (l : List α) : List (Nat × α) := (List.range l.length).zip l
+/-- a list with the positions of its elements, counted from `i` -/
+def enumFrom {α : Type} (i : Nat) : List α → List (Nat × α)
+  | [] => []
+  | x :: xs => (i, x) :: enumFrom (i + 1) xs
+
+def enum {α : Type} (l : List α) : List (Nat × α) := enumFrom 0 l
 
 /-- the dump as C03's table: every route has exactly one target, named by its position -/
 def toTable (d : DTable) : Route.Table :=
